@@ -1,6 +1,7 @@
 import Proofs.Blade
 import Proofs.Fund
 import Proofs.Project
+import Proofs.GramSchmidt
 import Proofs.Index
 import Props.C05
 
@@ -92,6 +93,42 @@ theorem project_remainder_orthogonal (h2 : (2 : F) ≠ 0) (x : Cl n sig) (hx : I
     ∧ (asCl (mmul n sig lcmtCheck (x + (-1 : F) • ((2 : F)⁻¹ • proj d q bs : Cl n sig)) bs.prod) : Cl n sig) = 0 :=
   ⟨fun c hc => remainder_orthogonal h2 x bs d q h.sq h.orth hd c hc,
    remainder_contraction h2 x hx bs h.vec d q h.sq h.orth hd⟩
+
+
+/-! ### … and for a blade given by OBLIQUE spanning vectors, `B = v₁ ∧ … ∧ v_k` as the code builds it
+
+`GS.Tri vs bs`: the `b`'s arise from the `v`'s by a unitriangular change of basis (Gram–Schmidt from the last vector backwards).  Then
+`v₁ ∧ … ∧ v_k = b₁ ⋯ b_k` (`blade_is_product`) and the `project_*` theorems hold for `B = wprod vs`.  What remains a hypothesis is
+that such orthogonal non-null `b`'s exist (true for every non-null blade of a real non-degenerate algebra, possibly after reordering
+the vectors; the harness runs the exact recursion on every case). -/
+
+theorem blade_is_product (h2 : (2 : F) ≠ 0) (vs bs : List (Cl n sig)) (q : Cl n sig → F) (ht : GS.Tri vs bs) (h : OrthoBlade bs q) :
+    (asCl (wprod n vs) : Cl n sig) = bs.prod := GS.blade_eq_prod h2 vs bs ht h.vec h.orth
+
+theorem project_formula_oblique (h2 : (2 : F) ≠ 0) (x : Cl n sig) (hx : IsHom n 1 x) (vs bs : List (Cl n sig)) (d q : Cl n sig → F)
+    (ht : GS.Tri vs bs) (h : OrthoBlade bs q) (hd : ∀ b ∈ bs, x * b + b * x = d b • (1 : Cl n sig)) :
+    (asCl (mmul n sig lcmtCheck x (asCl (wprod n vs) : Cl n sig)) + asCl (mmul n sig lcmtCheck x (asCl (wprod n vs) : Cl n sig))) * pinv q bs
+      = proj d q bs := by
+  rw [blade_is_product h2 vs bs q ht h]; exact project_formula x hx bs d q h hd
+
+theorem project_idempotent_oblique (h2 : (2 : F) ≠ 0) (vs bs : List (Cl n sig)) (d q : Cl n sig → F) (ht : GS.Tri vs bs) (h : OrthoBlade bs q) :
+    (asCl (mmul n sig lcmtCheck ((2 : F)⁻¹ • proj d q bs : Cl n sig) (asCl (wprod n vs) : Cl n sig))
+      + asCl (mmul n sig lcmtCheck ((2 : F)⁻¹ • proj d q bs : Cl n sig) (asCl (wprod n vs) : Cl n sig))) * pinv q bs = proj d q bs := by
+  rw [blade_is_product h2 vs bs q ht h]; exact project_idempotent h2 bs d q h
+
+theorem project_lies_in_blade_oblique (h2 : (2 : F) ≠ 0) (vs bs : List (Cl n sig)) (d q : Cl n sig → F) (ht : GS.Tri vs bs) (h : OrthoBlade bs q) :
+    wedge n ((2 : F)⁻¹ • proj d q bs : Cl n sig) (asCl (wprod n vs) : Cl n sig) = 0 := by
+  rw [blade_is_product h2 vs bs q ht h]; exact project_lies_in_blade h2 bs d q h
+
+theorem project_remainder_oblique (h2 : (2 : F) ≠ 0) (x : Cl n sig) (hx : IsHom n 1 x) (vs bs : List (Cl n sig)) (d q : Cl n sig → F)
+    (ht : GS.Tri vs bs) (h : OrthoBlade bs q) (hd : ∀ b ∈ bs, x * b + b * x = d b • (1 : Cl n sig)) :
+    (asCl (mmul n sig lcmtCheck (x + (-1 : F) • ((2 : F)⁻¹ • proj d q bs : Cl n sig)) (asCl (wprod n vs) : Cl n sig)) : Cl n sig) = 0 := by
+  rw [blade_is_product h2 vs bs q ht h]; exact (project_remainder_orthogonal h2 x hx bs d q h hd).2
+
+/-- non-vacuity of the triangular relation: in Cl(1,−1), `[e₁ + e₂, e₂]` orthogonalises (from the last vector backwards) to `[e₁, e₂]` -/
+example : GS.Tri (n := 2) (sig := fun i => if i = 0 then (1 : ℚ) else -1)
+    [Cl.e 0 (by decide) + Cl.e 1 (by decide), Cl.e 1 (by decide)] [Cl.e 0 (by decide), Cl.e 1 (by decide)] :=
+  GS.Tri.cons _ _ _ _ [1] (GS.Tri.cons _ _ [] [] [] GS.Tri.nil (by simp [GS.lin])) (by simp [GS.lin])
 
 /-- non-vacuity: `e₁, e₂` of Cl(1,−1) over ℚ form such a factorisation (a negative-norm factor included), with
     `q b` the scalar part of `b²` -/
